@@ -30,8 +30,9 @@ type SReq struct {
 
 type httpReply struct {
 	Raw     []byte
-	Cuts    []int // lengths of the writes
-	DelayMs int   // wait this long before answering
+	Cuts    []int  // lengths of the writes
+	DelayMs int    // wait this long before answering
+	Close   string // after this reply: "" keep the connection, "fin" close it, "rst" reset it
 }
 
 type backConn struct {
@@ -190,6 +191,17 @@ func (b *httpBackend) handle(c net.Conn, bc *backConn) {
 			if _, err := c.Write(rest); err != nil {
 				return
 			}
+		}
+		switch rep.Close {
+		case "fin":
+			return
+		case "rst":
+			// let the reply reach the proxy first: a reset discards what the peer has not read yet
+			time.Sleep(15 * time.Millisecond)
+			if tc, ok := c.(*net.TCPConn); ok {
+				tc.SetLinger(0)
+			}
+			return
 		}
 	}
 }
